@@ -384,6 +384,10 @@ var idTags = map[string]bool{"self": true, "feat": true, "dirs": true, "args": t
 
 // canonIDs replaces identities >= base by "new" (containers the clone allocated) and sorts the
 // names of `additional` (their order is immaterial and the rebuilt one comes out of a Go map).
+// sortMemberLists: also sort the names of `ifaces` and `members` (set while a definition rebuilt
+// from a reordered introspection result is compared: their order follows the result's).
+var sortMemberLists bool
+
 func canonIDs(x hx.Sexp, base int, sortAdditional bool) hx.Sexp {
 	if !x.IsList {
 		return x
@@ -396,7 +400,7 @@ func canonIDs(x hx.Sexp, base int, sortAdditional bool) hx.Sexp {
 		if n, err := strconv.Atoi(out.List[1].Atom); err == nil && n >= base {
 			out.List[1] = hx.A("new")
 		}
-		if sortAdditional && out.List[0].Atom == "additional" {
+		if sortAdditional && (out.List[0].Atom == "additional" || (sortMemberLists && (out.List[0].Atom == "ifaces" || out.List[0].Atom == "members"))) {
 			rest := out.List[2:]
 			sort.Slice(rest, func(i, j int) bool { return rest[i].Atom < rest[j].Atom })
 		}
@@ -429,7 +433,7 @@ func (h *harness) tieClone(bt *built, cl *schema.SchemaDefinition) *failure {
 }
 
 // tieRebuild compares the real rebuilt definition with the model's rebuild (introspect S ⊤).
-func (h *harness) tieRebuild(bt *built, s *schema.Schema, data []byte) *failure {
+func (h *harness) tieRebuild(bt *built, s *schema.Schema, data []byte, reordered bool) *failure {
 	var result struct {
 		Schema introspection.SchemaData `json:"__schema"`
 	}
@@ -458,7 +462,9 @@ func (h *harness) tieRebuild(bt *built, s *schema.Schema, data []byte) *failure 
 		return f
 	}
 	h.count("model:rebuild:" + variant)
+	sortMemberLists = reordered
 	a, b := canonValues(canonIDs(rep, 1<<40, true)), canonValues(canonIDs(eraseIDs(x2), 1<<40, true))
+	sortMemberLists = false
 	st := &wildStats{}
 	if where := matchWild(a, b, "", st); where != "" {
 		return corr("model-rebuild", "rebuilt definitions differ at "+where+": model vs implementation "+firstDiff(a.String(), b.String()))
